@@ -167,7 +167,30 @@ def run(ctx, replay=None):
         ctx.violation(f'cached_compute_rays_fancy: {m["what"]}', {'kind': 'cache', 'detail': m})
     for m in [x for x in mm2 if not x.get('drift')]:
         ctx.violation(f'lru_cache(2)(compute_rays_fancy): {m["what"]}', {'kind': 'cache-small', 'detail': m})
-    ctx.add_counts(evaluations=n1 + n2, traces=len(behs_big) + 1 + len(behs_small))
+    # the cached value after the library itself used it (visibility functions read the cached fan on every call)
+    import numpy as _np
+    from gym_gridverse.grid_object import Wall
+    n_use = 0
+    for (pos, area) in [k for k in keys if k[1].ymin == 0 and k[1].xmin == 0][: (12 if ctx.quick else 60)]:
+        grid = Grid.from_shape((area.height, area.width), factory=Floor)
+        grid[0, 0] = Wall()
+        rt.cached_compute_rays_fancy.cache_clear() if hasattr(rt.cached_compute_rays_fancy, 'cache_clear') else None
+        first_vis = None
+        for rep_ in range(3):
+            for fname in ('raytracing', 'stochastic_raytracing', 'raytracing'):
+                vis = visibility_fs.factory(fname)(grid, pos, rng=_np.random.default_rng(1))
+                if fname == 'raytracing':
+                    if first_vis is not None and not (vis == first_vis).all():
+                        ctx.violation(f'raytracing visibility changes when the same question is repeated (area {area}, origin {pos})',
+                                      {'kind': 'cache-use', 'area': [[area.ymin, area.ymax], [area.xmin, area.xmax]], 'origin': [pos.y, pos.x]})
+                    first_vis = vis if first_vis is None else first_vis
+            n_use += 3
+            if rays_json(rt.cached_compute_rays_fancy(pos, area)) != rays_json(rt.compute_rays_fancy(pos, area)):
+                ctx.violation(f'the cached fan of area {area} from {pos} differs from the uncached one after the visibility functions used it',
+                              {'kind': 'cache-use', 'area': [[area.ymin, area.ymax], [area.xmin, area.xmax]], 'origin': [pos.y, pos.x]})
+                break
+    ctx.add_part('cached fans after use by the visibility functions', uses=n_use)
+    ctx.add_counts(evaluations=n1 + n2 + n_use, traces=len(behs_big) + 1 + len(behs_small))
     ctx.add_part('cache histories', queries=n1 + n2, behaviours=len(behs_big) + 1 + len(behs_small))
 
 
